@@ -1676,7 +1676,7 @@ class EqWorld(BaseWorld):
                 d['fresh_stream_residual'] = b['resid']
                 self.baseline_defect(r['clause'], msg + ' [a fresh stream misses it too: '
                                      f"residual {b['resid']:.6g}]", d)
-            elif self.capped(self.main_obs, d):
+            elif not ev.get('fault') and self.capped(self.main_obs, d):
                 pass
             else:
                 d['fresh_stream_residual'] = b['resid'] if b else None
@@ -1688,7 +1688,9 @@ class EqWorld(BaseWorld):
         call the OUTERMOST solver, or the LAST inner composition solve (aitken), was seen (seam S3, passive) to leave
         unconverged - through its iteration cap or its 'error is growing' exit - which thermosteam lets
         pass silently (checkiter=False).  The result of such a call is unconverged by construction; a missed
-        tolerance clause is then that finding, whether or not a brand-new stream happens to converge."""
+        tolerance clause is then that finding, whether or not a brand-new stream happens to converge.
+        Not applied to a call that carries an injected fault: there an unconverged exit may be the
+        consequence of a wrong recovery path, which is exactly what the fault is injected to find."""
         if CAP_REGION not in self.regions or not obs or not (obs.get('outer_capped') or obs.get('last', {}).get('aitken')):
             return False
         self.stats['region:' + CAP_REGION] += 1
@@ -1981,7 +1983,7 @@ class EqWorld(BaseWorld):
             d = dict(detail, fresh_pair_residual=(b['resid'] if b else None))
             if b is not None and not b['resid'] <= MULT[b['clause']] * b['unit']:
                 self.baseline_defect(r['clause'], msg + f" [a fresh pair of streams deviates too: {b['resid']:.6g}]", d)
-            elif self.capped(self.main_obs, d) or self.capped(self.twin_obs, d):
+            elif not ev.get('fault') and (self.capped(self.main_obs, d) or self.capped(self.twin_obs, d)):
                 pass
             else:
                 self.fail(r['clause'], msg + (f" [a fresh pair of streams given the same inputs agrees: "
